@@ -148,6 +148,22 @@ def run_machine_models(ctx, evals, mn, par=2, workers=6):
                 (" VIOLATED " + str(r["violated"])) if r["violated"] else ""))
     return res
 
+def run_dead_models(ctx, evals, n, par=3):
+    """TLC MCDead: the lemma behind viable-prefix enumeration and the completions appended to rejected prefixes - a sequence rejected
+    inside it has no accepted continuation (every sequence of at most n kinds, NOT cut at rejected prefixes)."""
+    res = {}
+    def one(e):
+        cfg = "CONSTANTS N = %d\nE = \"%s\"\nINIT Init\nNEXT Next\nCHECK_DEADLOCK FALSE\nINVARIANT DeadStaysDead DeadAgree\n" % (n, e)
+        r = vlib.tlc("MCDead", cfg, "%s_dead_%s" % (ctx.prop, e), workers=5, timeout=3600)
+        r.update({"e": e, "N": n, "beh": 0, "beh_path": None, "samples": []})
+        return e, r
+    with cf.ThreadPoolExecutor(max_workers=par) as ex:
+        for e, r in ex.map(one, evals):
+            vlib.tlc_ok(r, "MCDead %s" % e)
+            res["dead_%s" % e] = r
+            log("TLC MCDead E=%s N=%d: %d distinct sequences%s" % (e, n, r["distinct"], (" VIOLATED " + str(r["violated"])) if r["violated"] else ""))
+    return res
+
 def semantic_models(ctx, w, invs=("C06Exact", "C09IntegerWhenFits", "C09Rounding")):
     """TLC MCSem at word size w (exhaustive over all operand pairs) and ref-selftest of the interpreter at the same w."""
     beh = os.path.join(ctx.wd, "vectors_w%d.ndjson" % w)
@@ -275,6 +291,8 @@ def grammar_check(ctx, cats, n_quick, n_thorough, opts, evals=EVALS, invs=None, 
             cc = ch["quick"] if ctx.quick() else ch["thorough"]      # (walks, depth, max tokens)
             models.update(run_compose_models(ctx, cev, 3, 3, depth=cc[1], maxtoks=cc[2], simulate=cc[0], tag="chain"))
     machines = run_machine_models(ctx, machine["evals"], machine["quick"] if ctx.quick() else machine["thorough"]) if machine else {}
+    if any(po.get("reject_suffixes") for po in (opts if isinstance(opts, list) else [opts])):
+        machines.update(run_dead_models(ctx, evals, 4 if ctx.quick() else 5))
     spec_viol = [(e, r["violated"]) for e, r in list(models.items()) + list(machines.items()) if r["violated"]]
     semr = None
     if sem and sem.get("dec"):
@@ -355,7 +373,12 @@ def grammar_check(ctx, cats, n_quick, n_thorough, opts, evals=EVALS, invs=None, 
     if machines:
         cov["states"] += sum(r["distinct"] for r in machines.values())
         cov["transitions"] += sum(r["states"] for r in machines.values())
-        cov["parser_machine"] = {k: {"MN": r["N"], "states": r["distinct"], "depth": r["depth"], "invariants": MACHINE_INV, "transitions_per_action": r.get("action_coverage", {})} for k, r in machines.items()}
+        pm = {k: {"MN": r["N"], "states": r["distinct"], "depth": r["depth"], "invariants": MACHINE_INV, "transitions_per_action": r.get("action_coverage", {})} for k, r in machines.items() if r.get("machine")}
+        if pm:
+            cov["parser_machine"] = pm
+        dm = {k: {"N": r["N"], "sequences": r["distinct"], "invariants": ["DeadStaysDead", "DeadAgree"]} for k, r in machines.items() if k.startswith("dead_")}
+        if dm:
+            cov["rejected_prefix_lemma"] = dm
     if pt:
         cov["parser_trace"] = {"records": pt["records"], "driven_through_ParserMachine": pt["stepped"], "events_matched": pt["events"]}
         cov["traces_validated_against_impl"] += pt["stepped"]
@@ -548,8 +571,17 @@ def trace_validate(ctx, event_files, cap=40000, chunk=4000, par=8, reset_between
 
 # ----------------------------------------------------------------------------------------------- checks
 def nested_agg_jobs(ctx):
+    # C01 also runs the function sweep of C10 (every (evaluator, spelling) pair of spec/MCVocab.tla on boundary arguments, every pair of
+    # boundary arguments of the variadic functions): only panics, aborts and hangs count here
+    vocab = {}
+    def fn_jobs(profile):
+        if "r" not in vocab:
+            vlib.vocab_json()
+            vocab["r"] = simple_model(ctx, "MCVocab", "INIT Init\nNEXT Next\nCHECK_DEADLOCK FALSE\nINVARIANT Spelled ConstSpelled NeedsParen Emit\n", "vocab")
+        return [dict(base_job(ctx, "replay", "%s_fn_%d" % (profile, sh), profile, beh=vocab["r"]["beh_path"], e="f64", shard=sh, nshards=4,
+                              samples_per_pair=40 if ctx.quick() else 4000, event_every=0, event_cap=0)) for sh in range(4)]
     return lambda profile: ([base_job(ctx, "agg", "%s_nested_%s" % (profile, e), profile, nested_e=e, event_every=100, event_cap=500) for e in ["i64", "f64", "dec", "num"]]
-                            + deep_shape_jobs(ctx)(profile))
+                            + deep_shape_jobs(ctx)(profile) + fn_jobs(profile))
 
 def unopt_shape_jobs(ctx):
     """deep shapes in the unoptimised build, each call on a thread with std's default stack of 2 MiB"""
@@ -583,22 +615,22 @@ def c04(ctx):
 
 def c12(ctx):
     return grammar_check(ctx, {"meta_jux", "ok_on_reject"}, {"*": 5}, {"*": 6, "f64": 7},
-                         {"assignments": 2, "extras": ["jux"], "event_every": 200, "event_cap": 1500, "nontrivial_min_ops": 1, "parser_events": True},
+                         {"assignments": 2, "extras": ["jux"], "event_every": 200, "event_cap": 1500, "nontrivial_min_ops": 1, "parser_events": True, "reject_suffixes": 1, "full_placeholders": True},
                          compose={"quick": (3, 3), "thorough": (4, 4), "evals": ["f64", "i64", "dec"]})
 
 def c13(ctx):
     return grammar_check(ctx, {"meta_ws", "meta_alias", "meta_notation", "meta_sup", "meta_plus", "meta_wrap"}, {"*": 4}, {"*": 5, "f64": 6},
-                         {"assignments": 2, "all_functions": True, "extras": ["spellings"], "event_every": 200, "event_cap": 1500, "nontrivial_min_ops": 1},
+                         {"assignments": 2, "all_functions": True, "extras": ["spellings"], "event_every": 200, "event_cap": 1500, "nontrivial_min_ops": 1, "full_placeholders": True},
                          lexer={"alphabets": ["lit", "kw1", "kw2"], "k_quick": 3, "k_thorough": 4, "invs": ["WsInvariant"]})
 
 def c14(ctx):
     return grammar_check(ctx, {"value", "meta_ans", "ok_on_reject"}, {"*": 4}, {"*": 5, "f64": 6},
-                         {"assignments": 2, "full_placeholders": True, "extras": ["ans"], "event_every": 200, "event_cap": 1500, "nontrivial_min_ops": 1},
+                         {"assignments": 2, "full_placeholders": True, "extras": ["ans"], "event_every": 200, "event_cap": 1500, "nontrivial_min_ops": 1, "reject_suffixes": 1},
                          invs=["NoJuxAfter", "NoJuxBefore"])
 
 def c20(ctx):
     return grammar_check(ctx, {"meta_subst"}, {"*": 5, "f64": 6, "num": 6}, {"*": 6, "f64": 7},
-                         {"assignments": 1, "extras": ["subst"], "event_every": 200, "event_cap": 1500, "nontrivial_min_ops": 1})
+                         {"assignments": 1, "extras": ["subst"], "event_every": 200, "event_cap": 1500, "nontrivial_min_ops": 1, "full_placeholders": True})
 
 # the operations each statement speaks about (a tree using anything else is executed but not asserted by that check)
 SCOPE_C05 = {"ops": ["add", "sub", "mul", "div", "mod", "neg", "pow", "const"], "fns": ["Abs", "Floor", "Ceil", "Truncate", "Round", "Sqrt", "Mod", "Pow"]}
